@@ -115,6 +115,13 @@ FRAGMENTS = [
     lambda r: "<math>\\frac{a}{b}</math>",
     lambda r: "<gallery>\nFile:A.png|%s\nFile:B.png\n</gallery>" % words(r, 3),
     lambda r: "<ul><li>a</li><b>x</b><ol><li>q</li></ol>loose</ul>",
+    # a layout table whose cells hold nothing but big tables, one of which holds a table itself (three levels)
+    lambda r: "{|\n|\n" + "\n|\n".join(
+        '{| class="wikitable"\n| %s || %s\n|-\n|%s\n| %s\n|}' % (
+            words(r, r.choice((90, 150))), words(r, 3),
+            ("\n" + small_table(r, rows=2, cols=2, cellfn=lambda rr: words(rr, 2))) if i == 0 or r.random() < 0.5 else " " + words(r, 2),
+            words(r, 2))
+        for i in range(r.randint(2, 3))) + "\n|}",
     # an argument that carries an extension tag, used twice by the template
     lambda r: "{{twice|%s}}" % r.choice(("<ref>%s</ref>", "<gallery>\nFile:A.png|%s\n</gallery>", "<poem>%s</poem>", "<nowiki>%s</nowiki>",
                                          "<math>%s</math>", "<ref name=\"tw\">%s</ref>", "<source>%s</source>", "<imagemap>\nFile:A.png|%s\n</imagemap>"))
